@@ -49,21 +49,21 @@ func c13TLS() (*tls.Config, *tls.Config) {
 }
 
 type c13Env struct {
-	w         *core.W
-	kind      string
-	ctl       *sched.Controller
-	srv       *dns.Server
-	ln        *netsim.Listener
-	pc        *netsim.PacketConn
-	addr      string
-	started   chan struct{}
-	serveErr  chan error
-	hold      chan struct{} // handlers wait on it when non-nil
-	holdOn    atomic.Bool
-	entered   atomic.Int32
-	exited    atomic.Int32
-	nextAddr  atomic.Int32
-	scenario  string
+	w          *core.W
+	kind       string
+	ctl        *sched.Controller
+	srv        *dns.Server
+	ln         *netsim.Listener
+	pc         *netsim.PacketConn
+	addr       string
+	started    chan struct{}
+	serveErr   chan error
+	hold       chan struct{} // handlers wait on it when non-nil
+	holdOn     atomic.Bool
+	entered    atomic.Int32
+	exited     atomic.Int32
+	nextAddr   atomic.Int32
+	scenario   string
 	conclusive bool
 }
 
